@@ -10,12 +10,12 @@
                                WorkerManager.result_uuids_collection (= done), CfwManager.error (= failed, head = the
                                message the caller sees; set_error overwrites), result_data_collection (= results)
    pc, sc                      program counter of the main thread; sc = index of the for loop (ghost, kept after a crash)
-   ws w                        worker w: MP = the process of compute-framework object w (worker_manager.py:29-43
+   ws w                        worker w: MP = the process of compute-framework object w (worker_manager.py:30-44
                                process_register[cfw_uuid]); THREADING = the thread of step w (one thread per step,
                                compute_framework_executor.py:237-249)
      cmdq                      command_queue (FIFO; writers: main thread, and the worker's own final "STOP")
      resq / requeued           result_queue: messages written by the worker (FIFO) / messages the main thread took and
-                               put back in wait_for_drop_completion (worker_manager.py:70-81).  A multiprocessing.Queue with
+                               put back in wait_for_drop_completion (worker_manager.py:80-91).  A multiprocessing.Queue with
                                two writers has no order between them, so a get returns the head of resq or ANY requeued one.
      trk                       cfw.already_calculated_children_tracker inside the worker (compute_framework.py:316-333)
    tasks                       WorkerManager.tasks in creation order
@@ -23,6 +23,11 @@
                                (compute_framework.py:415-437 upload_finished_data)
    sent, replies, dropfail     ghosts: commands submitted (worker, step); result/error reports produced (step, ok);
                                the final drop raised and was swallowed
+   undelivered                 ghost: results that were collected but never handed to the consumer because it closed the stream
+                               in the middle of a drain: what is still in DataLifecycleManager.result_data_collection when
+                               GeneratorExit arrives (data_lifecycle_manager.py:148-157 pop_result_data_collection pops ONE item,
+                               yields it, pops the next ...).  `o` keeps Model/Orch.v's view (the whole drain moves results to
+                               yielded at the end of the scan); yielded minus undelivered = what the consumer received
 
    Transition                  source lines mirrored
    ------------------------------------------------------------------------------------------------------------------
@@ -30,33 +35,49 @@
                                tests the error first - Proofs/WorkerP.v head_src_loop_head shows they agree on reachable states)
    OVisit                      run.py:111-128 a visit that touches no shared state: step finished (116), not startable (125),
                                or running and `step.uuid in result_uuids_collection or step.step_is_done` false (run.py:205-209)
-   OPoll taken                 run.py:204 poll_result_queues, worker_manager.py:57-64: ONE get(block=False) per result queue in
-                               set-iteration order; `taken` = the messages received.  A ("DROP_COMPLETE", uuid) tuple makes
-                               UUID(...) raise (AttributeError) = crash point CPoll -> finally with XRaisedBody
+   OPoll taken                 run.py:204 poll_result_queues, worker_manager.py:64-74: ONE get(block=False) per result queue in
+                               set-iteration order; `taken` = the messages received.  A step uuid is added to
+                               result_uuids_collection; a ("DROP_COMPLETE", uuid) tuple - an acknowledgement that arrived after
+                               wait_for_drop_completion had given up - is skipped (`continue`, lines 69-71, repair 10693fe) at
+                               whatever position of the iteration it is met.  Before 10693fe UUID(tuple) raised AttributeError
+                               there (crash point CPoll -> finally with XRaisedBody): kept as poll_old / step_old below, used
+                               only by the regression witness in Proofs/WorkerWitP.v
    OCollect ok                 run.py:205-222 _process_step_result of a done step: get_cfw, add_to_result_data_collection
                                (data_lifecycle_manager.py:86-131: download_table / convert / select), then _drop_data_if_possible
                                (run.py:224-249) -> in MP command_queue.put(feature uuids) to the worker of the object found by
                                get_cfw (wdrop), then _mark_step_as_finished (122).  ok = false: crash point CResult
-   ORequeue / OGot / OTimeout  worker_manager.py:70-81 wait_for_drop_completion: get; DROP_COMPLETE -> return; other -> put back;
+   ORequeue / OGot / OTimeout  worker_manager.py:80-91 wait_for_drop_completion: get; DROP_COMPLETE -> return; other -> put back;
                                5 s timeout -> return (logs a warning)
    OExec ok                    run.py:125-129 _can_run_step (adds to currently_running BEFORE executing) + _execute_step ->
                                compute_framework_executor.py:237-272: prepare_execute_step / prepare_tfs_* (ok = false: crash
                                point CPrepare, ValueError), create_worker_process (tasks.append, start) if the object has none,
                                send_command = command_queue.put(step); THREADING: Thread(thread_worker), tasks.append, start
-   OEndScan                    end of the for loop (+ run.py:185 yield from pop_result_data_collection, + sleep)
-   OResume / OAbandon          the consumer asks for the next item / closes the generator (GeneratorExit at the yield)
+   OSendFail                   MP only, worker_manager.py:50-62 send_command (repair d86b7a0): the step is pickled in the caller
+                               BEFORE command_queue.put; a step that cannot be pickled raises ValueError = crash point CSend.
+                               It fires AFTER create_worker_process (compute_framework_executor.py:261-272): a new worker is
+                               already started and in `tasks`, its command queue is empty, nothing was submitted (before
+                               d86b7a0 the feeder thread dropped the step silently and the run polled for ever).  The drop
+                               command (a set of uuids, run.py:242) goes through command_queue.put directly and always pickles
+   OEndScan                    end of the for loop (+ run.py:185 yield from pop_result_data_collection: the first item is popped
+                               (dict.popitem = the most recently collected = head of `results`) and yielded; PYield pending,
+                               pending = that item :: the items still in the collection)
+   ONext                       the consumer asks for the next item and there is one: popped and yielded (no loop head in between)
+   OResume                     the consumer asks for the next item after the last one of the drain: the generator goes on to
+                               the sleep and the loop head
+   OAbandon                    the consumer closes the generator: GeneratorExit at the yield, the item it holds was delivered,
+                               the rest of the drain (tl pending) never is -> undelivered
    OArtifacts ok               run.py:135 / 193 set_artifacts(cfw_register.get_artifacts()) - a manager call that precedes
                                self.join() in the finally block; ok = false: crash point CArtifacts (join is never reached)
-   OTerminate w, OJoin w       worker_manager.py:83-98 join_all: for task in tasks: terminate() (processes only); join()
-   OClose                      worker_manager.py:100-108 _close_queues
+   OTerminate w, OJoin w       worker_manager.py:93-108 join_all: for task in tasks: terminate() (processes only); join()
+   OClose                      worker_manager.py:110-118 _close_queues
    ODropAll ok                 run.py:282-297 _drop_uploaded_datasets: drop_tables(location, all cfw uuids); an exception is
                                logged and swallowed (ok = false: crash point CFinalDrop)
    WTake w                     multiprocessing_worker.py:112-125 command_queue.get; "STOP" -> break; set -> dropping; step -> run
    WUpload w                   cfw.upload_finished_data: feature_group_step.py:57-60, transform_frame_work_step.py:77-78,
                                join_step.py:45-49, compute_framework.py:205-206, multiprocessing_worker.py:87-92
-   WDone w                     multiprocessing_worker.py:94-95 result_queue.put(str(command.uuid)); thread_worker.py:12
+   WDone w                     multiprocessing_worker.py:94-95 result_queue.put(str(command.uuid)); thread_worker.py:14
                                command.step_is_done = True
-   WFail w c                   multiprocessing_worker.py:131-140 / thread_worker.py:13-18: set_error, (MP) put "STOP", exit.
+   WFail w c                   multiprocessing_worker.py:131-140 / thread_worker.py:15-20: set_error, (MP) put "STOP", exit.
                                c = CCalc: command.execute raised; c = CUpload: the upload raised
    WDropAck w last dropped     multiprocessing_worker.py:27-43 _handle_data_dropping: tracker update, drop_last_data when all
                                children are calculated (dropped = the data was an uploaded object id), put DROP_COMPLETE,
@@ -67,7 +88,7 @@
    Not modelled: a mixed mode set (a run is THREADING or MULTIPROCESSING), the SYNC back end (Orch.v inline = true), the
    deferred drops of DataLifecycleManager (in MP the parent's cfw.data is never an object id, so they do not touch the
    store; the store is emptied by ODropAll), exceptions raised by terminate()/join() themselves, the `len(to_finish_ids)
-   == 0: break` of compute_stream on an empty plan (as in Orch.v), a partially consumed drain before OAbandon. *)
+   == 0: break` of compute_stream on an empty plan (as in Orch.v; no request reaches the runtime with an empty plan). *)
 From Coq Require Import List Bool Arith.
 Import ListNotations.
 Require Import MV.Model.Orch.
@@ -89,7 +110,7 @@ Definition spawned (ph : wphase) : bool := match ph with WNone => false | _ => t
 Inductive exitk := XNormal | XRaisedHead | XRaisedBody | XAbandon | XFinallyCrash.
 
 Inductive opc :=
-  | PHead | PVisit (i : nat) | PPolled (i : nat) | PWait (i w : nat) | PYield
+  | PHead | PVisit (i : nat) | PPolled (i : nat) | PWait (i w : nat) | PYield (pending : list nat)
   | PFinally (x : exitk) | PTerm (x : exitk) (k : nat) | PJoin (x : exitk) (k : nat) | PDrop (x : exitk) | PExited (x : exitk).
 
 Record cfg := {
@@ -104,13 +125,14 @@ Record cfg := {
 
 Record pst := {
   o : ost; pc : opc; sc : option nat; ws : nat -> wst; tasks : list nat; flight : list nat;
-  sent : list (nat * nat); replies : list (nat * bool); dropfail : bool
+  sent : list (nat * nat); replies : list (nat * bool); dropfail : bool; undelivered : list nat
 }.
 
 Definition upd (f : nat -> wst) (w : nat) (x : wst) : nat -> wst := fun k => if Nat.eqb k w then x else f k.
 
 Definition pinit : pst :=
-  {| o := init; pc := PHead; sc := None; ws := fun _ => w0; tasks := []; flight := []; sent := []; replies := []; dropfail := false |}.
+  {| o := init; pc := PHead; sc := None; ws := fun _ => w0; tasks := []; flight := []; sent := []; replies := []; dropfail := false;
+     undelivered := [] |}.
 
 (* ---- record updates ---- *)
 Definition set_phase (x : wst) (ph : wphase) : wst :=
@@ -136,17 +158,20 @@ Definition add_failed (s : nat) (a : ost) : ost :=
 
 Definition mk (st : pst) (a : ost) (q : opc) (i : option nat) (f : nat -> wst) : pst :=
   {| o := a; pc := q; sc := i; ws := f; tasks := tasks st; flight := flight st; sent := sent st; replies := replies st;
-     dropfail := dropfail st |}.
+     dropfail := dropfail st; undelivered := undelivered st |}.
 Definition set_pc (st : pst) (q : opc) : pst := mk st (o st) q (sc st) (ws st).
 Definition set_tasks (st : pst) (t : list nat) (sn : list (nat * nat)) : pst :=
   {| o := o st; pc := pc st; sc := sc st; ws := ws st; tasks := t; flight := flight st; sent := sn; replies := replies st;
-     dropfail := dropfail st |}.
+     dropfail := dropfail st; undelivered := undelivered st |}.
 Definition set_flight (st : pst) (fl : list nat) (df : bool) : pst :=
   {| o := o st; pc := pc st; sc := sc st; ws := ws st; tasks := tasks st; flight := fl; sent := sent st; replies := replies st;
-     dropfail := df |}.
+     dropfail := df; undelivered := undelivered st |}.
 Definition add_reply (st : pst) (r : nat * bool) : pst :=
   {| o := o st; pc := pc st; sc := sc st; ws := ws st; tasks := tasks st; flight := flight st; sent := sent st;
-     replies := r :: replies st; dropfail := dropfail st |}.
+     replies := r :: replies st; dropfail := dropfail st; undelivered := undelivered st |}.
+Definition set_undelivered (st : pst) (u : list nat) : pst :=
+  {| o := o st; pc := pc st; sc := sc st; ws := ws st; tasks := tasks st; flight := flight st; sent := sent st;
+     replies := replies st; dropfail := dropfail st; undelivered := u |}.
 
 (* ---- the orchestrator's tests ---- *)
 Definition nofail : nat -> bool := fun _ => false.
@@ -180,8 +205,23 @@ Definition take_msg (x : wst) (m : rmsg) : option wst :=
   | [] => from_requeued
   end.
 
-(* poll_result_queues; the bool says that UUID(...) raised on a DROP_COMPLETE tuple (always the last message taken) *)
-Fixpoint poll (f : nat -> wst) (a : ost) (taken : list (nat * rmsg)) : option ((nat -> wst) * ost * bool) :=
+(* poll_result_queues (worker_manager.py:64-74): a step uuid is recorded, a DROP_COMPLETE acknowledgement is consumed and
+   skipped, wherever in the iteration over the result queues it is met *)
+Fixpoint poll (f : nat -> wst) (a : ost) (taken : list (nat * rmsg)) : option ((nat -> wst) * ost) :=
+  match taken with
+  | [] => Some (f, a)
+  | (w, m) :: t =>
+    if spawned (phase (f w)) then
+      match take_msg (f w) m with
+      | None => None
+      | Some x => poll (upd f w x) (match m with RDone s => add_done s a | RDropComplete => a end) t
+      end
+    else None
+  end.
+
+(* PRE-10693fe behaviour of poll_result_queues, kept as a regression input only: the bool says that UUID(...) raised on a
+   DROP_COMPLETE tuple (then it is the last message taken) *)
+Fixpoint poll_old (f : nat -> wst) (a : ost) (taken : list (nat * rmsg)) : option ((nat -> wst) * ost * bool) :=
   match taken with
   | [] => Some (f, a, false)
   | (w, m) :: t =>
@@ -190,7 +230,7 @@ Fixpoint poll (f : nat -> wst) (a : ost) (taken : list (nat * rmsg)) : option ((
       | None => None
       | Some x =>
         match m with
-        | RDone s => poll (upd f w x) (add_done s a) t
+        | RDone s => poll_old (upd f w x) (add_done s a) t
         | RDropComplete => match t with [] => Some (upd f w x, a, true) | _ :: _ => None end
         end
       end
@@ -203,7 +243,8 @@ Inductive label :=
   | OExec (ok : bool) | OEndScan | OResume | OAbandon
   | OArtifacts (ok : bool) | OTerminate (w : nat) | OJoin (w : nat) | OClose | ODropAll (ok : bool)
   | WTake (w : nat) | WUpload (w : nat) | WDone (w : nat) | WFail (w : nat) (c : crashpt)
-  | WDropAck (w : nat) (last dropped : bool) | WDropCrash (w : nat).
+  | WDropAck (w : nat) (last dropped : bool) | WDropCrash (w : nat)
+  | OSendFail | ONext.
 
 Definition is_worker_label (l : label) : bool :=
   match l with WTake _ | WUpload _ | WDone _ | WFail _ _ | WDropAck _ _ _ | WDropCrash _ => true | _ => false end.
@@ -264,8 +305,7 @@ Section Step.
         | Some s =>
           if negb (is_fin s a) && cur_running s a && nodupb (map fst taken) && (mp c || match taken with [] => true | _ => false end) then
             match poll (ws st) a taken with
-            | Some (f, a', false) => Some (mk st a' (PPolled i) (sc st) f)
-            | Some (f, a', true) => Some (mk st a' (PFinally XRaisedBody) (sc st) f)
+            | Some (f, a') => Some (mk st a' (PPolled i) (sc st) f)
             | None => None
             end
           else None
@@ -342,14 +382,14 @@ Section Step.
         | None =>
           let a1 := bump a in
           if cstream c then
-            Some (mk st (drain a1) (match results a1 with [] => PHead | _ :: _ => PYield end) None (ws st))
+            Some (mk st (drain a1) (match results a1 with [] => PHead | _ :: _ => PYield (results a1) end) None (ws st))
           else Some (mk st a1 PHead None (ws st))
         | Some _ => None
         end
       | _ => None
       end
-    | OResume => match pc st with PYield => Some (set_pc st PHead) | _ => None end
-    | OAbandon => match pc st with PYield => Some (set_pc st (PFinally XAbandon)) | _ => None end
+    | OResume => match pc st with PYield [_] => Some (set_pc st PHead) | _ => None end
+    | OAbandon => match pc st with PYield (_ :: t) => Some (set_undelivered (set_pc st (PFinally XAbandon)) t) | _ => None end
     (* ------------------------------------------------ main thread: finally ------------------------------------------------ *)
     | OArtifacts ok =>
       match pc st with
@@ -452,12 +492,58 @@ Section Step.
         else None
       | _ => None
       end
+    (* ------------------------------------- main thread: send_command raises (CSend) ------------------------------------- *)
+    | OSendFail =>
+      match pc st with
+      | PVisit i =>
+        match nth_error p i with
+        | Some s =>
+          if negb (is_fin s a) && negb (cur_running s a) && can_run s a && mp c then
+            let w := wof c (sid s) in
+            if spawned (phase (ws st w)) then Some (mk st (ovisit a s) (PFinally XRaisedBody) (Some (S i)) (ws st))
+            else Some (set_tasks (mk st (ovisit a s) (PFinally XRaisedBody) (Some (S i)) (upd (ws st) w (set_phase w0 WIdle)))
+                                 (tasks st ++ [w]) (sent st))
+          else None
+        | None => None
+        end
+      | _ => None
+      end
+    (* ------------------------------------- main thread: the next item of the drain ------------------------------------- *)
+    | ONext => match pc st with PYield (_ :: (x :: t)) => Some (set_pc st (PYield (x :: t))) | _ => None end
     end.
 
   Fixpoint exec (st : pst) (tr : list label) : option pst :=
     match tr with
     | [] => Some st
     | l :: t => match step st l with Some st' => exec st' t | None => None end
+    end.
+
+  (* PRE-10693fe transition function (regression input only): as `step`, but a poll that meets a DROP_COMPLETE raises *)
+  Definition step_old (st : pst) (l : label) : option pst :=
+    match l with
+    | OPoll taken =>
+      match pc st with
+      | PVisit i =>
+        match nth_error p i with
+        | Some s =>
+          if negb (is_fin s (o st)) && cur_running s (o st) && nodupb (map fst taken) && (mp c || match taken with [] => true | _ => false end) then
+            match poll_old (ws st) (o st) taken with
+            | Some (f, a', false) => Some (mk st a' (PPolled i) (sc st) f)
+            | Some (f, a', true) => Some (mk st a' (PFinally XRaisedBody) (sc st) f)
+            | None => None
+            end
+          else None
+        | None => None
+        end
+      | _ => None
+      end
+    | _ => step st l
+    end.
+
+  Fixpoint exec_old (st : pst) (tr : list label) : option pst :=
+    match tr with
+    | [] => Some st
+    | l :: t => match step_old st l with Some st' => exec_old st' t | None => None end
     end.
 
   (* index of the first label that is not enabled (for diagnostics) *)
@@ -523,7 +609,8 @@ Fixpoint assoc {A} (d : A) (l : list (nat * A)) (k : nat) : A :=
 Record pcase := {
   pc_plan : plan; pc_mp : bool; pc_stream : bool;
   pc_wof : list (nat * nat); pc_wdrop : list (nat * nat); pc_children : list (nat * list nat); pc_wfail : list (nat * option crashpt);
-  pc_hist : list label; pc_exit : exitk; pc_keys_left : bool
+  pc_hist : list label; pc_exit : exitk; pc_keys_left : bool;
+  pc_received : nat                   (* items the consumer of compute_stream received (0 for compute) *)
 }.
 
 Definition cfg_of (k : pcase) : cfg :=
@@ -538,9 +625,16 @@ Definition chk_proto (k : pcase) : bool :=
   match exec (cfg_of k) pinit (pc_hist k) with
   | Some st => match pc st with
                | PExited x => exitk_eqb x (pc_exit k) && Bool.eqb (match flight st with [] => false | _ => true end) (pc_keys_left k)
+                              && Nat.eqb (List.length (yielded (o st)) - List.length (undelivered st)) (pc_received k)
                | _ => false
                end
   | None => false
   end.
 
 Definition diag_proto (k : pcase) : option nat := first_bad (cfg_of k) pinit (pc_hist k) 0.
+(* diagnostics / counters: what the model says the consumer received, and what it lost by closing the stream mid-drain *)
+Definition received_proto (k : pcase) : option (nat * nat) :=
+  match exec (cfg_of k) pinit (pc_hist k) with
+  | Some st => Some (List.length (yielded (o st)) - List.length (undelivered st), List.length (undelivered st))
+  | None => None
+  end.
